@@ -57,6 +57,11 @@ def OneOf(*ts):
 Opaque = T("Opaque")
 
 
+def ClassOf(name):
+    """The class object `name` defined in the contract's target module (the `cls` of a classmethod)."""
+    return T("Class", (name,))
+
+
 def Lit(value):
     """A literal constant (used with OneOf for entry-time case splits over flag values)."""
     return T("Lit", (value,))
@@ -90,7 +95,22 @@ def has_record(cls):
     return cls in _RECORDS
 
 
+_OPTINT = None
+
+
+def optint_sort():
+    global _OPTINT
+    if _OPTINT is None:
+        dt = z3.Datatype("OptInt")
+        dt.declare("none")
+        dt.declare("some", ("val", z3.IntSort()))
+        _OPTINT = dt.create()
+    return _OPTINT
+
+
 def kind_sort(kind: str):
+    if kind == "optint":
+        return optint_sort()
     if kind == "str":
         return z3.StringSort()
     if kind == "int":
